@@ -9,7 +9,7 @@ SPEC = dict(
     groups=[
         dict(name='ibb', harness='h.cpp', tus=TUS, models=MODELS,
              instances=[
-                 I('data_step', 'one job'), I('data_step_kf', '', known_finding='ibb_sequence_wrap'), I('close_step', ''), I('terminated', ''), I('open_step', ''), I('sender_step', ''), I('sender_dispatch', ''),
+                 I('data_step', 'one job'), I('data_step_kf', '', known_finding='ibb_sequence_wrap'), I('close_step', ''), I('terminated', ''), I('open_step', ''), I('sender_result2', '', entry='h_sender_step', cdefs={'VP_CASE': 3 | (2 << 2)}), I('sender_result0', '', entry='h_sender_step', cdefs={'VP_CASE': 3 | (0 << 2)}), I('sender_error', '', entry='h_sender_step', cdefs={'VP_CASE': 0 | (1 << 2)}), I('sender_dispatch', '', cdefs={'VP_CASE': 3 | (1 << 2)}), I('lookup', ''),
              ]),
     ],
     bounds=[], assumptions=[], outside=[],
